@@ -1,13 +1,93 @@
-"""C12: see servelib.run_property (shared Serve model / replay / ServeObs pipeline)."""
+"""C12 - the response cache is invisible.
+
+Second half (staleness) : servelib.run_property - StaleNeverServed model-checked on Serve.tla, TLC schedules that park a
+                          query across a complete reload replayed on the real handler with the LRU enabled, ServeObs judges.
+First half (invisibility): the same query history is fed to a cache-disabled and to a cache-enabled real handler over the
+                          same database (CDB, RocksDB v1, v2); ResolveTrace.tla requires the same response position by
+                          position (C12:cache-changes-answer; owner-name case folded, weighted address answers compared
+                          by count), and judges every response against Resolve.tla as well.  Histories: every interesting
+                          name x type asked by clients of different locations in turn (location ids that differ only in
+                          their first / only in their second byte), repeated (hits), with and without EDNS / ECS, in
+                          upper case, for negative, delegated, REFUSED and positive answers.
+"""
+import json
+import random
+
 import servelib
+import semlib
+import semgen
+import semcheck
+import semfam
+import vlib
+from semlib import L, nm
+from vlib import tier, seed
+
+LOCS = [0x0041, 0x0141, 0x0042]        # \000A \001A \000B
+
+
+def history(rng):
+    w = semgen.gen_world(rng, nrec=22, with_maps=False, weights=False, locs=LOCS)
+    zone = w.zones[0]
+    mid, emid = 0x6D31, 0x6532
+    maps = [L("M", nm(zone), wild=True, mapid=mid), L("M", nm(zone), mapid=mid), L("8", nm(zone), wild=True, mapid=emid)]
+    clients = {0: "10.9.9.9"}
+    for i, lo in enumerate(LOCS):
+        maps.append(semlib.net(lo, "10.%d.0.0/16" % (i + 1), mid))
+        maps.append(semlib.net(lo, "172.%d.0.0/16" % (16 + i), emid))
+        clients[lo] = "10.%d.3.4" % (i + 1)
+    # make sure some names carry different non-weighted records per location
+    extra = []
+    for n in ("geo", "geo.sub"):
+        extra.append(L("'", nm("%s.%s" % (n, zone)), rd=[117]))
+        for lo in LOCS:
+            extra.append(L("'", nm("%s.%s" % (n, zone)), rd=[108, 48 + (lo >> 8), 48 + (lo & 15)], loc=lo))
+            extra.append(L("C", nm("c%s.%s" % (n, zone)), x=nm("t%x.%s" % (lo, zone)), loc=lo))
+    lines = maps + w.lines + extra
+    names = sorted(w.names) + [tuple(("geo." + zone).split(".")), tuple(("geo.sub." + zone).split(".")), tuple(("cgeo." + zone).split("."))]
+    hist = []
+    for n in names:
+        qn = [[ord(c) for c in l] for l in n if l != ""]
+        for t in sorted(set(rng.sample(semgen.QTYPES, 3)) | {16, 5}):
+            order = [0] + LOCS
+            rng.shuffle(order)
+            for lo in order + [order[0]]:                       # the first client again: a hit on its own entry
+                ecs = None
+                rip = clients[lo]
+                if rng.random() < 0.25 and lo:
+                    ecs, rip = ("172.%d.9.0" % (16 + LOCS.index(lo)), 24), "192.0.2.1"   # the location comes from the client subnet
+                hist.append(semlib.query(qn, t, rip, ecs=ecs, edns=rng.random() < 0.4, upper=rng.random() < 0.15, exact=True, maxans=8))
+    return lines, hist
+
+
+def invisibility(rep):
+    thorough = tier() == "thorough"
+    rng = random.Random(seed() * 1201 + 12)
+    script = semlib.Script()
+    nh = 0
+    for _ in range(20 if thorough else 4):
+        lines, hist = history(rng)
+        nh += 1
+        for phase, cache in ((0, False), (1, True)):
+            script.file(lines, random.Random(nh), tag="c12", keep=bool(phase), opts={"cache": cache}, clause="C12:cache-changes-answer")
+            for i, (q, c) in enumerate(hist):
+                q = dict(q)
+                q["cmp"] = bool(phase)
+                script.q(q, c, qid=i + 1, tag="c12")
+    trace, rows, res, info = semcheck.validate(script, "c12", backends="cdb,v1,v2")
+    stats = {}
+    semcheck.collect(rep, script, rows, res, ["C12:"], stats)
+    rep.cov["invisibility"] = {"histories": nh, "queries_per_backend": info["queries"], "rejected_judgements": len(res["rejects"]),
+                               "foreign_clauses": stats.get("foreign", {}),
+                               "compared_positions": sum(1 for e in rows if e["ev"] == "q" and e["q"].get("cmp"))}
+    rep.cov["evaluations"] = rep.cov.get("evaluations", 0) + info["queries"] * 3
+    rep.cov["traces_validated_against_impl"] = rep.cov.get("traces_validated_against_impl", 0) + nh
 
 
 def run():
-    return servelib.run_property("C12")
+    return servelib.run_property("C12", extra=invisibility)
 
 
 def replay(path):
-    import json
     d = json.load(open(path))
     print(json.dumps(d, indent=1)[:6000])
     return 0
